@@ -83,10 +83,19 @@ def run(ctx):
             chk(ctx, "C02.R2", fn, line, "resolver-header", hdr_ok, "resolver's header argument is decode_header of the same token", "resolver's header argument is not the header of the presented token: %s" % vstr(hdr, 4))
         # algorithm
         vnew = [x for x in walk(valn) if x.kind == "call" and (x.d["term"].get("resolved") or "") == "jsonwebtoken::Validation::new"]
+        helper_alg = []
         if not vnew:
+            # one level through a crate-local helper that builds the Validation: map its algorithm parameter back to the caller's argument
+            for h in [x for x in walk(valn) if x.kind == "call" and x.d["term"].get("resolved_local") and x.d["term"].get("resolved") in fx.fns]:
+                callee = fx.fns[h.d["term"]["resolved"]]
+                for x in walk(vals(callee).return_value()):
+                    if x.kind == "call" and (x.d["term"].get("resolved") or "") == "jsonwebtoken::Validation::new" and x.kids:
+                        a = peel(x.kids[0])
+                        if a.kind == "param" and a.fn is callee and a.d["idx"] - 1 < len(h.kids):
+                            helper_alg.append(h.kids[a.d["idx"] - 1])
+        if not vnew and not helper_alg:
             ctx.finding("C02.R2", fn, "algorithm", "Validation is not built by Validation::new(alg)", line=line)
-        for vn in vnew:
-            alg = vn.kids[0]
+        for alg in [vn.kids[0] for vn in vnew] + helper_alg:
             alts = alg.kids if peel(alg).kind == "phi" else [alg]
             allok = True
             why = []
